@@ -175,7 +175,10 @@ Definition judge_lookup (which : N) (acc : list (decl N)) (r : option (node N))
   | Ok segs =>
       let x := expect N ncmp acc m segs v in
       let relevant := if which =? 1 then is_found o || x_found x
-                      else negb (is_found o || x_found x) in
+                      (* C04: every answer that is, or should be, a 404/405 —
+                         including a 404/405 given where an endpoint should
+                         have been found *)
+                      else negb (is_found o && x_found x) in
       if negb relevant then V_AGREE
       else if obs_is_expected o x then
         match r with
